@@ -494,6 +494,19 @@ func (w *World) reachableFrom(roots []*ssa.Function) map[*ssa.Function]bool {
 				case ssa.CallInstruction:
 					if sc := in.Common().StaticCallee(); sc != nil {
 						push(sc)
+					} else if p, isP := in.Common().Value.(*ssa.Parameter); isP && !in.Common().IsInvoke() {
+						// a function-typed parameter: the functions passed for it at every call site, when all are known
+						if vals, ok := w.paramFuncValues(p); ok {
+							for _, d := range vals {
+								push(d)
+							}
+						} else {
+							for _, d := range w.dynCallees(in) {
+								if !isTestFunc(w, d) {
+									push(d)
+								}
+							}
+						}
 					} else {
 						for _, d := range w.dynCallees(in) {
 							if !isTestFunc(w, d) {
@@ -942,4 +955,22 @@ func builtinBindsRule(w *World, r *Report, rule string) {
 	}
 	r.add(rule, nil, "functions of the registered builtins examined", token.NoPos, "ok", fmt.Sprintf("%d functions, %d binding writes", len(seen), n))
 	r.floor(rule, "functions of the registered builtins", len(seen), 50)
+}
+
+var registeredSet map[*World]map[*ssa.Function]bool
+
+// isRegistered: fn is bound to a lisp name by the binder (its parameters are what programs pass).
+func (w *World) isRegistered(fn *ssa.Function) bool {
+	if registeredSet == nil {
+		registeredSet = map[*World]map[*ssa.Function]bool{}
+	}
+	set, ok := registeredSet[w]
+	if !ok {
+		set = map[*ssa.Function]bool{}
+		for _, f := range w.registeredFuncs() {
+			set[f] = true
+		}
+		registeredSet[w] = set
+	}
+	return set[fn]
 }
